@@ -215,6 +215,38 @@ func topicNames(n int, rng *rand.Rand) []TopicSpec {
 	return out
 }
 
+// topics lists that name a topic more than once, as index patterns over the
+// distinct topics of a case; every pattern with two or more distinct topics
+// has a distinct topic after the repetition
+var repeatPatterns = map[int][][]int{
+	1: {{0, 0}, {0, 0, 0}},
+	2: {{0, 0, 1}, {0, 0, 0, 1}, {0, 1, 0}, {0, 1, 1}},
+	3: {{0, 0, 1, 2}, {0, 1, 0, 2}, {0, 1, 1, 2}, {0, 0, 1, 1, 2}},
+	4: {{0, 1, 0, 2, 3}, {0, 0, 1, 2, 3}, {0, 1, 2, 2, 3}, {0, 0, 1, 0, 2, 3}},
+}
+
+func repeatedList(topics []TopicSpec, pattern []int) []string {
+	var out []string
+	for _, i := range pattern {
+		out = append(out, topics[i].Name)
+	}
+	return out
+}
+
+// maybeRepeat gives some cases a topics list with repeated names (own random
+// stream: the rest of the case does not depend on it).
+func maybeRepeat(cs *Case, seed int64, pct int) {
+	rng := rand.New(rand.NewSource(seed ^ 0x7091c5))
+	if rng.Intn(100) >= pct {
+		return
+	}
+	ps := repeatPatterns[len(cs.Topics)]
+	if len(ps) == 0 {
+		return
+	}
+	cs.TopicList = repeatedList(cs.Topics, ps[rng.Intn(len(ps))])
+}
+
 var schedBases = []int64{0, 0, 0, 1, 65530, 1<<31 - 40, 1<<32 + 5, 1<<47 - 2000}
 
 func pickI(rng *rand.Rand, xs ...int) int { return xs[rng.Intn(len(xs))] }
@@ -270,6 +302,7 @@ func schedCase(i int, seed int64) Case {
 	cs.FetchBatches = pickI(rng, 1, 2, 4, 16)
 	cs.ReleaseWaves = pickI(rng, 1, 2, 4)
 	cs.WaveMs = pickI(rng, 0, 20, 120)
+	maybeRepeat(&cs, seed, 40)
 	return cs
 }
 
@@ -309,6 +342,9 @@ func injectCase(i int, seed int64) Case {
 	cs.ChannelBuf, cs.MaxConsumers = 256, pickI(rng, 1, 5)
 	cs.AutoCommitMs = 100
 	cs.Meta = rng.Intn(2) == 0
+	if i%2 == 0 { // every other inject case names a topic more than once
+		maybeRepeat(&cs, seed, 100)
+	}
 	return cs
 }
 
@@ -322,6 +358,14 @@ func gridCase(k, order int) Case {
 	cs.ChannelBuf, cs.MaxConsumers = 256, 5
 	cs.AutoCommitMs = 100
 	cs.GridPartOrder = order
+	return cs
+}
+
+// gridRepeatCase: the packing grid with a topics list that repeats a name.
+func gridRepeatCase(k int, pattern []int, order int) Case {
+	cs := gridCase(k, order)
+	cs.TopicList = repeatedList(cs.Topics, pattern)
+	cs.Name = fmt.Sprintf("grid-repeat-%v-order%d", pattern, order)
 	return cs
 }
 
@@ -364,5 +408,21 @@ func fingerprint(cs *Case, r *Result) string {
 		phen = append(phen, k+"="+bucket(r.Stats[k]))
 	}
 	sort.Strings(phen)
-	return fmt.Sprintf("%s|procs=%d|topics=%d|parts=%d|out=%d/%d|off=%s|bal=%s|%v", cs.Kind, cs.Procs*2, len(cs.Topics), nparts, cs.Out.Count, cs.Out.Workers, cs.Offset, cs.Balancer, phen)
+	return fmt.Sprintf("%s|list=%v|procs=%d|topics=%d|parts=%d|out=%d/%d|off=%s|bal=%s|%v", cs.Kind, listShape(cs), cs.Procs*2, len(cs.Topics), nparts, cs.Out.Count, cs.Out.Workers, cs.Offset, cs.Balancer, phen)
+}
+
+// listShape is the topics list with names replaced by first-occurrence numbers ("0,0,1").
+func listShape(cs *Case) string {
+	ids := map[string]int{}
+	out := ""
+	for i, t := range cs.configTopics() {
+		if _, ok := ids[t]; !ok {
+			ids[t] = len(ids)
+		}
+		if i > 0 {
+			out += ","
+		}
+		out += fmt.Sprint(ids[t])
+	}
+	return out
 }
